@@ -223,6 +223,7 @@ impl StorageTxn for SimTxn<'_> {
         }
         let r = self.inner()?.commit().await;
         if r.is_ok() {
+            crate::exec::commit_returned();
             if let Some(sh) = self.shared.clone() {
                 // the real transaction has published its data; refresh the inspection cache
                 self.inner = None;
@@ -249,6 +250,8 @@ pub struct StoreState {
     pub base_version: Uuid,
     pub unsynced: Vec<Operation>,
     pub working_set: Vec<Option<Uuid>>,
+    /// set when the store could not be opened / read at all
+    pub unreadable: Option<String>,
 }
 
 pub async fn read_state(st: &mut dyn Storage) -> Result<StoreState> {
@@ -257,7 +260,7 @@ pub async fn read_state(st: &mut dyn Storage) -> Result<StoreState> {
     let base_version = txn.base_version().await?;
     let unsynced = txn.unsynced_operations().await?;
     let working_set = txn.get_working_set().await?;
-    Ok(StoreState { tasks, base_version, unsynced, working_set })
+    Ok(StoreState { tasks, base_version, unsynced, working_set, unreadable: None })
 }
 
 /// like `read_state`, for use inside the seams (InMemoryStorage never suspends)
@@ -268,4 +271,62 @@ async fn read_state_plain(st: &mut InMemoryStorage) -> Result<StoreState> {
 /// Committed state of a harness-owned in-memory store (as of its last successful commit).
 pub fn read_mem(store: &MemStore) -> Arc<StoreState> {
     store.cache.lock().unwrap().clone()
+}
+
+// ---- a store that is either harness-owned memory or a SQLite directory -------------------------
+
+#[derive(Clone)]
+pub enum StoreRef {
+    Mem(MemStore),
+    /// a directory holding taskchampion.sqlite3; only what is on disk is the store
+    Sqlite(std::path::PathBuf),
+}
+
+pub async fn open_sim(s: &StoreRef, sched: bool) -> Result<SimStorage> {
+    match s {
+        StoreRef::Mem(m) => Ok(SimStorage::mem(m.clone())),
+        StoreRef::Sqlite(dir) => {
+            let st = SqliteStorage::new(dir, taskchampion::storage::AccessMode::ReadWrite, true).await?;
+            Ok(SimStorage::sqlite(st, sched))
+        }
+    }
+}
+
+/// Committed (durable) state: for SQLite read through a fresh handle, as a restarted process would.
+pub fn read_store(s: &StoreRef) -> Arc<StoreState> {
+    match s {
+        StoreRef::Mem(m) => read_mem(m),
+        StoreRef::Sqlite(dir) => {
+            let r = crate::exec::block_on(async {
+                let mut st = SqliteStorage::new(dir, taskchampion::storage::AccessMode::ReadWrite, true).await?;
+                read_state(&mut st).await
+            });
+            match r {
+                Ok(st) => Arc::new(st),
+                Err(e) => Arc::new(StoreState { unreadable: Some(format!("{e:#}")), ..Default::default() }),
+            }
+        }
+    }
+}
+
+pub fn copy_dir(from: &std::path::Path, to: &std::path::Path) {
+    let _ = std::fs::create_dir_all(to);
+    if let Ok(rd) = std::fs::read_dir(from) {
+        for e in rd.flatten() {
+            if e.path().is_file() {
+                let _ = std::fs::copy(e.path(), to.join(e.file_name()));
+            }
+        }
+    }
+}
+
+pub fn clone_store(s: &StoreRef, new_dir: impl FnOnce() -> std::path::PathBuf) -> StoreRef {
+    match s {
+        StoreRef::Mem(m) => StoreRef::Mem(clone_mem(m)),
+        StoreRef::Sqlite(dir) => {
+            let d = new_dir();
+            copy_dir(dir, &d);
+            StoreRef::Sqlite(d)
+        }
+    }
 }
